@@ -141,7 +141,7 @@ def _parts(t):
     return [t]
 
 
-def unit_backward(kind, pattern, ts_grad, nt):
+def unit_backward(kind, pattern, ts_grad, nt, varying=False):
     """kind: 'function' | 'method' (parameters of an EditableModule); pattern over {T,U,N,X} for the explicit parameters"""
     iv = _iv()
     import xitorch
@@ -161,11 +161,22 @@ def unit_backward(kind, pattern, ts_grad, nt):
             else:
                 params.append(3.5)
 
+        after_forward = [False]
+
         def used_of(ps):
             return [p for p, k in zip(ps, pattern) if k in "TN"]
         objt = []
+        nevals = [0]
         if kind == "function":
             def rhs(t, y, *ps):
+                if varying and nevals[0] == 0 and after_forward[0]:
+                    # a right-hand side with control flow: its first evaluation of the backward pass uses neither the
+                    # parameters nor the time, the later ones use everything
+                    nevals[0] += 1
+                    out, pt = absfun("f_early", [t.detach(), y], n)
+                    log.append(dict(t=t, y=y, pt=pt, grad=st.is_grad_enabled()))
+                    return out
+                nevals[0] += 1
                 out, pt = absfun("f", [t, y] + used_of(ps), n)
                 log.append(dict(t=t, y=y, pt=pt, grad=st.is_grad_enabled()))
                 return out
@@ -209,6 +220,7 @@ def unit_backward(kind, pattern, ts_grad, nt):
         eff = dict(fwd)
         eff.update(bck)
         del log[:]
+        after_forward[0] = True
         grows = [st.vec("g%d" % k, (n,), (0,)) for k in range(nt)]
         grad_yt = Rows("grad_yt", grows)
         grad_mode = c.choose(2, "grad_mode") == 0
@@ -236,6 +248,19 @@ def unit_backward(kind, pattern, ts_grad, nt):
             rec["rhs_log"] = list(log)
             rec["nodes"] = (tnode, ynode, anode)
             rec["rhs_out"] = out
+            # the solver's own backward (second order) evaluates the same function again with recording on: when the outer
+            # backward is recorded, that evaluation must depend on the state, the time and the tensor parameters handed in
+            if grad_mode and i == 0:
+                y2 = st.vec("ynode2", (n,), (0,), requires_grad=True)
+                a2 = st.vec("anode2", (n,), (0,), requires_grad=True)
+                t2 = st.scalar("tnode2")
+                t2.requires_grad = True
+                tau2 = st.scalar("taunode2", (1,))
+                s2 = st.cat([y2, a2, tau2] + pinodes, dim=-1)
+                with st.enable_grad():
+                    out2 = pf(t2, s2, *tparams)
+                rec["regrad"] = (_parts(out2), y2, a2, t2)
+            del log[:]
             finals = []
             rhs = rec["rhs"]
             for k, c0 in enumerate(comps0):
@@ -270,6 +295,8 @@ def unit_backward(kind, pattern, ts_grad, nt):
         # ---- (1) the augmented dynamics ------------------------------------------------------------------
         for i, call in enumerate(calls[:1] + calls[-1:]):
             tag = "first" if i == 0 else "last"
+            if varying and i == 0:
+                continue        # the early evaluation is a different function; the later ones are checked in full
             rhs = call["rhs"]
             tnode, ynode, anode = call["nodes"]
             c.check("augmented_rhs[%s]:has_one_component_per_state_slot" % tag, len(rhs) == 3 + ntens, detail="%d components" % len(rhs))
@@ -301,6 +328,15 @@ def unit_backward(kind, pattern, ts_grad, nt):
                 j += 1
             if grad_mode:
                 c.check("augmented_rhs[%s]:recorded_mode_differentiates_copies_not_the_saved_tensors" % tag, True)
+        if grad_mode and "regrad" in calls[0]:
+            parts2, y2, a2, t2 = calls[0]["regrad"]
+            if len(parts2) == 3 + ntens:
+                c.check("recorded_backward:solver_function_re-evaluated_with_recording_depends_on_the_state",
+                        kit.reaches(parts2[0], y2) and kit.reaches(parts2[0], t2) and kit.reaches(parts2[1], a2))
+                for idx_, k_ in enumerate(kinds):
+                    if k_ == "T":
+                        c.check("recorded_backward:solver_function_re-evaluated_with_recording_depends_on_the_tensor_parameters",
+                                kit.reaches(parts2[0], allparams[idx_]))
         # ---- (2) the segments ---------------------------------------------------------------------------
         prev = None
         for i, call in enumerate(calls):
@@ -380,7 +416,7 @@ def unit_backward(kind, pattern, ts_grad, nt):
                             kit.reaches(gy0, allparams[idx]) and kit.reaches(out[6 + idx], allparams[idx]))
         c.check("state_change_lock_released", getattr(pfn, "_state_change_allowed", True) is True)
         c.prove("canary", z3.BoolVal(False), kind="canary")
-    return kit.run_unit("backward[%s,%s,ts_grad=%s,nt=%d]" % (kind, pattern or "-", ts_grad, nt), run)
+    return kit.run_unit("backward[%s,%s,ts_grad=%s,nt=%d%s]" % (kind, pattern or "-", ts_grad, nt, ",varying" if varying else ""), run)
 
 
 def kit_producer(make):
@@ -488,5 +524,7 @@ def units(tier):
              ("function", "", True, 3)]
     us = [("backward[%s,%s,ts_grad=%s,nt=%d]" % (k, p or "-", g, nt), (lambda k=k, p=p, g=g, nt=nt: unit_backward(k, p, g, nt)))
           for k, p, g, nt in cases]
+    us.append(("backward[function,T,ts_grad=False,nt=3,varying]", lambda: unit_backward("function", "T", False, 3, True)))
+    us.append(("backward[function,TT,ts_grad=False,nt=4,varying]", lambda: unit_backward("function", "TT", False, 4, True)))
     us.append(("tuple_state", unit_tuple_state))
     return us
